@@ -1,0 +1,44 @@
+//! Verification hooks (compiled only with `--cfg iggy_verif`).
+//!
+//! Everything in here is inert until a harness switches a facility on: each hook is a single
+//! relaxed atomic load on its fast path. Nothing in the regular build references this module.
+
+use std::sync::atomic::{AtomicBool, AtomicU64, Ordering};
+use std::time::{Duration, SystemTime, UNIX_EPOCH};
+
+static CLOCK_ON: AtomicBool = AtomicBool::new(false);
+static CLOCK_MICROS: AtomicU64 = AtomicU64::new(0);
+static CLOCK_TICK: AtomicU64 = AtomicU64::new(0);
+
+/// Freezes the clock at `micros` since the Unix epoch; every `now()` call then advances it by
+/// `tick_micros` (0 keeps it frozen).
+pub fn clock_set(micros: u64, tick_micros: u64) {
+    CLOCK_MICROS.store(micros, Ordering::SeqCst);
+    CLOCK_TICK.store(tick_micros, Ordering::SeqCst);
+    CLOCK_ON.store(true, Ordering::SeqCst);
+}
+
+/// Moves the owned clock forward by `micros`.
+pub fn clock_advance(micros: u64) {
+    CLOCK_MICROS.fetch_add(micros, Ordering::SeqCst);
+}
+
+/// Returns the current value of the owned clock without ticking it.
+pub fn clock_peek() -> u64 {
+    CLOCK_MICROS.load(Ordering::SeqCst)
+}
+
+/// Hands the clock back to the operating system.
+pub fn clock_release() {
+    CLOCK_ON.store(false, Ordering::SeqCst);
+}
+
+/// The time source of `IggyTimestamp::now()`.
+pub fn now() -> SystemTime {
+    if !CLOCK_ON.load(Ordering::Relaxed) {
+        return SystemTime::now();
+    }
+    let tick = CLOCK_TICK.load(Ordering::SeqCst);
+    let micros = CLOCK_MICROS.fetch_add(tick, Ordering::SeqCst);
+    UNIX_EPOCH + Duration::from_micros(micros)
+}
